@@ -640,7 +640,11 @@ fn gen_walk(rng: &mut Rng) -> Value {
     }
   };
   let nm = 6;
-  let mutations: Vec<Value> = (0..nm).map(|_| gen_mutation(rng)).collect();
+  let mut mutations: Vec<Value> = (0..nm).map(|_| gen_mutation(rng)).collect();
+  // the advance cap on both encodings, in every case (the inapplicable one is skipped)
+  let cap = *rng.pick(&["lit:50001", "lit:50000"]);
+  mutations.push(json!({"m": "u32", "field": "returned", "val": cap}));
+  mutations.push(json!({"m": "json_num", "key": "returned", "val": cap}));
   json!({
     "kind": "walk",
     "commits": commits,
@@ -1257,7 +1261,7 @@ impl Prop for C11 {
     "C11"
   }
   fn rule(&self) -> &'static str {
-    "case = (1-4 commit batches = segments over a schema with text body, fast keyword tag, fast i64 n, fast f64 x; missing / single / multi values from small domains, cloned batches for score ties across segments, optional delete-only commit; query match_all | term | 1-4 words; sort plan default | _score asc/desc | 1-3 of {_score,tag,n,x} with asc/desc/default; page size 1..7; execution wand|bm25; one post operation commit_add | delete_only | delete_cursor_doc | compact | other_sort | reopen; 6 ASCII cursor mutations). Non-trivial = the walk has >= 2 pages AND at least two matches tie on the primary sort value; distinct = distinct case JSON. The corpus adds one case per finding, among them a single request with limit > 20000 over 20011 matches."
+    "case = (1-4 commit batches = segments over a schema with text body, fast keyword tag, fast i64 n, fast f64 x; missing / single / multi values from small domains, cloned batches for score ties across segments, optional delete-only commit; query match_all | term | 1-4 words; sort plan default | _score asc/desc | 1-3 of {_score,tag,n,x} with asc/desc/default; page size 1..7; execution wand|bm25; one post operation commit_add | delete_only | delete_cursor_doc | compact | other_sort | reopen; 6 random ASCII cursor mutations + the advance cap 50000/50001). Non-trivial = the walk has >= 2 pages AND at least two matches tie on the primary sort value; distinct = distinct case JSON. The corpus adds one case per finding, among them a single request with limit > 20000 over 20011 matches."
   }
   fn count(&self, tier: Tier) -> usize {
     tier.pick(301, 6001)
